@@ -190,7 +190,7 @@ func (l *Loop) RangeKeyValue() (key, val []ssa.Value) {
 	}
 	for b := range l.Blocks {
 		for _, in := range b.Instrs {
-			if ia, ok := in.(*ssa.IndexAddr); ok && ia.X == op {
+			if ia, ok := in.(*ssa.IndexAddr); ok && (ia.X == op || sameLoadedField(ia.X, op)) {
 				key = append(key, ia.Index)
 				if refs := ia.Referrers(); refs != nil {
 					for _, r := range *refs {
@@ -200,7 +200,7 @@ func (l *Loop) RangeKeyValue() (key, val []ssa.Value) {
 					}
 				}
 			}
-			if ix, ok := in.(*ssa.Index); ok && ix.X == op {
+			if ix, ok := in.(*ssa.Index); ok && (ix.X == op || sameLoadedField(ix.X, op)) {
 				key = append(key, ix.Index)
 				val = append(val, ix)
 			}
@@ -486,4 +486,20 @@ func RetVal(ret *ssa.Return, i int) ssa.Value {
 		}
 	}
 	return v
+}
+
+// sameLoadedField reports whether a and b are two loads of the same field of
+// the same object (a loop that re-reads xs in `i < len(o.xs)` and `o.xs[i]`).
+func sameLoadedField(a, b ssa.Value) bool {
+	ua, ok1 := a.(*ssa.UnOp)
+	ub, ok2 := b.(*ssa.UnOp)
+	if !ok1 || !ok2 || ua.Op != token.MUL || ub.Op != token.MUL {
+		return false
+	}
+	fa, ok1 := ua.X.(*ssa.FieldAddr)
+	fb, ok2 := ub.X.(*ssa.FieldAddr)
+	if !ok1 || !ok2 || fa.Field != fb.Field {
+		return false
+	}
+	return SameValue(fa.X, fb.X)
 }
